@@ -79,7 +79,7 @@ enum OpCode : int {
     M_ENTER, M_NEXT, M_LEAVE, M_OBSERVE, M_FIELD, M_FIELD_ENS, M_RAW, M_TO_WRITER, M_STREQ,
     // writer API
     W_INIT, W_RESET, W_OBJ_BEGIN, W_OBJ_END, W_ARR_BEGIN, W_ARR_END, W_BOOL, W_INT, W_DOUBLE,
-    W_STRING, W_STRING_LEN, W_NAME, W_BYTES, W_RAW, W_VERIFY, W_COUNTER, W_STRING_NULL, W_RAW_NULL,
+    W_STRING, W_STRING_LEN, W_NAME, W_BYTES, W_RAW, W_VERIFY, W_COUNTER, W_STRING_NULL, W_RAW_NULL, W_TO_WRITER,
     // traverse / cppwrap: raw strategy choice
     X_CHOICE,
     OP__COUNT
